@@ -454,6 +454,38 @@ def page_case(rng, doc, sel, tags=(), kind="structured", hist=None, flags=None, 
                 model=("typed-writer-refuses" not in doc.features) if model is None else model, tags=["pages"] + sorted(doc.features) + list(tags), kind=kind)
 
 
+def seq_case(rng, doc, sel, tags=(), hist=None, flags=None, jopts=None):
+    """mode import_seq: the pages of `sel` through one Importer, going on after a page that fails.  Every page that was
+    imported is judged as if it had been imported alone: equal to its source page, self-contained, shared objects copied
+    once — whatever happened to the pages before it.  A page may fail.  No model (the model stops at the first failure)."""
+    data = docs.write(doc, rng)
+    hkind, steps = hist if hist is not None else ("none", [])
+    g = apply_updates(dict(doc.objs), steps)
+    if flags is None:
+        flags = rnd_config(rng, bool(steps))
+    tr = {"Root": Ref(doc.root)}
+    st = b",".join(b"%d" % i for i in sel)
+
+    def chk(r, g=g, tr=tr, sel=list(sel), exp=doc.expect, jopts=dict(jopts or {})):
+        if r[0] == "ERR":
+            return None
+        if r[0] != "OK":
+            return "importing must not %s (%s)" % (r[0], r[1][:80])
+        status = r[1][0]
+        if len(status) != len(sel) or any(c not in b"ke" for c in status):
+            return "harness: %d page states %r for %d pages" % (len(status), status, len(sel))
+        done = [p for p, c in zip(sel, status) if c == ord("k")]
+        if not done:
+            return None
+        why = G.judge_import(g, tr, done, r[1][1:], expect=exp, page_entries=True, **jopts)
+        if why and b"e" in status:
+            k = status.index(b"e")
+            why += " [sequence %s, states %s: the import of page %d failed before]" % (",".join(map(str, sel)), status.decode(), sel[k])
+        return why
+    return Case("import_seq", [b"s", data, st, flags or b"-"] + ([hist_text(steps)] if steps else []), check=chk, model=False,
+                tags=["pages", "sequence"] + sorted(doc.features) + list(tags) + ["hist:" + hkind, "cfg:" + (flags.decode() or "-")], kind="malformed")
+
+
 def corpus_cases(tier):
     out = []
     for fn in sorted(glob.glob(os.path.join(REPO, "files", "*.pdf"))):
@@ -638,6 +670,29 @@ def generate(rng, tier):
         yield page_case(rng, doc, sel, tags=["typed-values"], hist=rnd_page_history(rng, doc, sel, hk))
 
 
+    # sequences through ONE Importer in which the import of a page fails (every way the typed layer has of failing after the
+    # carrier object was loaded and memoised) and later pages share objects with the failed page (through a soft mask's
+    # group, painted again, an untyped page entry, a sibling resource, the unreadable object itself, the inner form)
+    nseq = 0
+    for i in range(21 if quick else 315):
+        fail = docs.FAIL_KINDS[i % len(docs.FAIL_KINDS)]
+        share = docs.SHARE_KINDS[i % len(docs.SHARE_KINDS)]
+        doc = docs.gen_doc(rng, npages=rng.choice([2, 2, 3, 4]))
+        while "typed-writer-refuses" in doc.features:
+            # (a value the typed writers refuse fails in `fulfill`: the reserved id stays an open promise and the target
+            #  cannot be saved at all — nothing to judge; reported as a defect of the unchanged library)
+            doc = docs.gen_doc(rng, npages=rng.choice([2, 2, 3, 4]))
+        a, b = docs.plant_failing_share(doc, rng, fail, share)
+        k = len(doc.pages)
+        others = [x for x in range(k) if x not in (a, b)]
+        sels = [[a, b], rng.choice([[a, b, b], [b, a, b], [a, a, b], [a] + others + [b], [a, b, a, b]])]
+        if i % 5 == 0:
+            sels.append(list(range(k)))
+        for sel in sels:
+            hk = rng.choice(["none", "none", "none", "render", "ops", "decode-all"])
+            yield seq_case(rng, doc, sel, tags=["seq:" + fail, "seq-share:" + share], hist=rnd_page_history(rng, doc, sel, hk))
+
+
 # The typed PatternDict has no field for /Type and /PatternType and no catch-all: the copy of a tiling pattern lacks both
 # (a defect of the typed writer, C15's subject; /PatternType is required by Table 75).  The cases about patterns are
 # narrowed to everything else — operation sequence, the other entries, the resources used — by naming the two keys here.
@@ -702,7 +757,10 @@ def coverage_extra(cases, impl, model):
     hist_panics = sum(1 for c, r in zip(cases, impl) if r and r[0] == "ERR" and "history:panic" in r[1])
     cached_hist = sum(1 for c in cases if any(t.startswith("cfg:c") for t in c.tags) and not any(t == "hist:none" for t in c.tags)
                       and any(t.startswith("hist:") for t in c.tags))
+    seqs = [(c, r) for c, r in zip(cases, impl) if c.mode == "import_seq" and r and r[0] == "OK"]
+    after = sum(1 for c, r in seqs if b"ek" in r[1][0].replace(b"e" * 2, b"e"))
     return {"generator_features": dict(sorted(feats.items())), "imports_ending_in_error": errs,
+            "sequences_run": len(seqs), "sequences_with_an_import_after_a_failed_page": after,
             "histories_on_cached_sources": cached_hist, "histories_that_panicked_before_the_import": hist_panics,
             "workarounds": ["single revision, no bytes before the header", "only dictionaries in object streams",
                             "images state /ImageMask and /Interpolate explicitly; DeviceGray images rare (ColorSpace::to_primitive unimplemented)",
